@@ -56,10 +56,22 @@ def _sincos_facts(t):
                  z3.Implies(t == 0, z3.And(s == 0, c == 1))), ('sincos', t.get_id()))
 
 
+def _period(x):
+    """(t, sign) if x is t + k*180 deg (in radians) for an integer k, by construction (tag); else None"""
+    if _sym(x) and x.tag is not None and x.tag[0] == 'rad_sum':
+        off = x.tag[2]
+        if off % 180 == 0:
+            return x.tag[1], (-1 if (off // 180) % 2 else 1)
+    return None
+
+
 def sin(x):
     x = _real(x)
     if not _sym(x):
         return math.sin(x)
+    pr = _period(x)
+    if pr is not None:
+        return sin(pr[0]) * pr[1]
     _sincos_facts(x.z)
     return SymReal(uf('sin')(x.z))
 
@@ -68,6 +80,9 @@ def cos(x):
     x = _real(x)
     if not _sym(x):
         return math.cos(x)
+    pr = _period(x)
+    if pr is not None:
+        return cos(pr[0]) * pr[1]
     _sincos_facts(x.z)
     return SymReal(uf('cos')(x.z))
 
@@ -76,6 +91,9 @@ def tan(x):
     x = _real(x)
     if not _sym(x):
         return math.tan(x)
+    pr = _period(x)
+    if pr is not None:
+        return tan(pr[0])
     t = x.z
     _sincos_facts(t)
     tt, s, c = uf('tan')(t), uf('sin')(t), uf('cos')(t)
@@ -109,6 +127,11 @@ def atan2(y, x):
                  z3.Implies(z3.And(xz == 0, yz > 0), a == PI / 2),
                  z3.Implies(z3.And(xz == 0, yz < 0), a == -PI / 2)),
           ('atan2', yz.get_id(), xz.get_id()))
+    # polar relation: with r = sqrt(x^2 + y^2) > 0: r sin(a) = y, r cos(a) = x
+    rr = uf('sqrt')(xz * xz + yz * yz)
+    _sincos_facts(a)
+    _fact(z3.And(rr >= 0, rr * rr == xz * xz + yz * yz,
+                 z3.Implies(rr > 0, z3.And(rr * uf('sin')(a) == yz, rr * uf('cos')(a) == xz))), ('atan2polar', yz.get_id(), xz.get_id()))
     return SymReal(a)
 
 
@@ -197,7 +220,10 @@ def radians(x):
         return math.radians(x)
     _pi()
     if x.tag is not None and x.tag[0] == 'deg_of':
-        return x.tag[1]
+        off = x.tag[2] if len(x.tag) > 2 else 0
+        if off == 0:
+            return x.tag[1]
+        return SymReal(x.z * PI / 180, tag=('rad_sum', x.tag[1], off))
     return SymReal(x.z * PI / 180, tag=('rad_of', x))
 
 
